@@ -747,6 +747,7 @@ class Stats:
         self.samples = []
         self.label_s = {}
         self.assumed_feasible = 0
+        self.cut_unsettled = 0
         self.soft_unknown = {}
 
 
@@ -790,12 +791,22 @@ class Explorer:
             prev = CUR
             CUR = self
             MATH.reset()
+            self.path_assumed = 0
             try:
                 r = fn(self)
                 results.append(r)
                 self.stats.paths += 1
             except Abort:
                 self.stats.aborted += 1
+            except (HarnessError, BoundExceeded):
+                raise
+            except Exception:
+                # an exception escaping the harness on a path that contains a branch side whose feasibility the solver
+                # could not settle within its budget: the path is cut and counted, not judged
+                if self.path_assumed > 0:
+                    self.stats.cut_unsettled += 1
+                else:
+                    raise
             finally:
                 CUR = prev
                 self.solver.pop()
@@ -956,6 +967,7 @@ class Explorer:
             # obligations on an infeasible path are vacuous, and a counterexample always comes with a model)
             self.stats.q_unknown -= 1
             self.stats.assumed_feasible += 1
+            self.path_assumed = getattr(self, 'path_assumed', 0) + 1
         if r == 'sat':
             try:
                 self.last_model = self.solver.model()
